@@ -187,6 +187,11 @@ struct Run {
     dispatch: Dispatch,
     logs: Vec<LeafLog>,
     base_log: Option<LeafLog>,
+    /// `Collect::max_level_hint` of the assembled stack (rank, 0 = OFF)
+    hint: Option<u8>,
+}
+fn hint_of<C: tracing_core::Collect>(c: &C) -> Option<u8> {
+    c.max_level_hint().map(|h| h.into_level().map(|l| vp_rec::rank(&l)).unwrap_or(0))
 }
 fn build(case: &Case, tree: Option<&Node>, cwrap: CWrap) -> Run {
     let mut logs = vec![];
@@ -201,12 +206,13 @@ fn build(case: &Case, tree: Option<&Node>, cwrap: CWrap) -> Run {
                 None => tracing_subscriber::subscribe::Identity::new().boxed(),
             };
             let c = Registry::default().with(layer);
+            let hint = hint_of(&c);
             let dispatch = match cwrap {
                 CWrap::Plain => Dispatch::new(c),
                 CWrap::Boxed => Dispatch::new(Box::new(c)),
                 CWrap::Arc => Dispatch::new(Arc::new(c)),
             };
-            Run { dispatch, logs, base_log: None }
+            Run { dispatch, logs, base_log: None, hint }
         }
         Base::IdChanging => {
             let layer: BS2 = match tree {
@@ -215,12 +221,13 @@ fn build(case: &Case, tree: Option<&Node>, cwrap: CWrap) -> Run {
             };
             let bl: LeafLog = Arc::new(Mutex::new(vec![]));
             let c = layer.with_collector(IdBase { next: AtomicU64::new(1), log: bl.clone() });
+            let hint = hint_of(&c);
             let dispatch = match cwrap {
                 CWrap::Plain => Dispatch::new(c),
                 CWrap::Boxed => Dispatch::new(Box::new(c)),
                 CWrap::Arc => Dispatch::new(Arc::new(c)),
             };
-            Run { dispatch, logs, base_log: Some(bl) }
+            Run { dispatch, logs, base_log: Some(bl), hint }
         }
     }
 }
@@ -444,25 +451,26 @@ fn wrapper_kinds(n: &Node, out: &mut Vec<&'static str>) {
 fn run_case(case: &Case) -> Outcome {
     let stripped = strip(&case.tree);
     // each run on its own thread: thread-local filter state of one run cannot reach the other
-    let (wn, wb) = std::thread::scope(|sc| {
+    let ((wn, wb), whint) = std::thread::scope(|sc| {
         sc.spawn(|| {
             let w = build(case, Some(&case.tree), case.cwrap);
             let mut wm = vec![];
             workload(&w.dispatch, &case.ops, &mut wm);
-            normalise(&w.logs, &w.base_log)
+            (normalise(&w.logs, &w.base_log), w.hint)
         })
         .join()
     })
     .unwrap_or_else(|p| std::panic::resume_unwind(p));
-    let (bn, bb, (raw, raw_base), bm) = std::thread::scope(|sc| {
+    let (bn, bb, (raw, raw_base), bm, bhint) = std::thread::scope(|sc| {
         sc.spawn(|| {
             let b = build(case, stripped.as_ref(), CWrap::Plain);
+            let bhint = b.hint;
             let mut bm = vec![];
             workload(&b.dispatch, &case.ops, &mut bm);
             let (bn, bb) = normalise(&b.logs, &b.base_log);
             let raw: Vec<Vec<LCall>> = b.logs.iter().map(|l| l.lock().unwrap().clone()).collect();
             let raw_base: Vec<LCall> = b.base_log.as_ref().map(|l| l.lock().unwrap().clone()).unwrap_or_default();
-            (bn, bb, (raw, raw_base), bm)
+            (bn, bb, (raw, raw_base), bm, bhint)
         })
         .join()
     })
@@ -479,6 +487,12 @@ fn run_case(case: &Case) -> Outcome {
     kinds.dedup();
 
     // (2) differential
+    // (a wrapper may lose a hint - `Identity` has none to offer - which only makes the stack
+    // more permissive; it must not publish a LOWER maximum than the stack without the wrappers,
+    // because the macros would then withhold notifications the leaves used to observe)
+    if whint.unwrap_or(6) < bhint.unwrap_or(6) {
+        return Outcome::fail(format!("wrapper not transparent: the stack's max-level hint is lower than without the wrappers; wrappers={}", kinds.join("+")), format!("wrapped stack publishes {whint:?} (rank, 0 = OFF), the stack without the wrappers {bhint:?}; case = {}", serde_json::to_string(case).unwrap_or_default()));
+    }
     if wn.len() != bn.len() {
         return Outcome::fail("harness: leaf count differs after stripping", format!("{} vs {}", wn.len(), bn.len()));
     }
@@ -643,7 +657,13 @@ fn c09_node(with_filtered: bool) -> BoxedStrategy<Node> {
     } else {
         Just(Node::Leaf).boxed()
     };
+    // an absent subscriber, bare or nested in pass-through wrappers (`Some(None)`, `Box(vec![])`,
+    // `vec![Some(None)]` ..): it has to stay absent
+    let absent: BoxedStrategy<Node> = prop_oneof![Just(Node::Opt(None)), Just(Node::Vec(vec![]))]
+        .prop_recursive(2, 4, 1, |a| prop_oneof![a.clone().prop_map(|n| Node::Opt(Some(Box::new(n)))), a.clone().prop_map(|n| Node::Boxed(Box::new(n))), a.prop_map(|n| Node::Vec(vec![n]))])
+        .boxed();
     leaf.prop_recursive(4, 12, 2, move |inner| {
+        let absent = absent.clone();
         prop_oneof![
             5 => (inner.clone(), inner.clone()).prop_map(|(a, b)| Node::Layered(Box::new(a), Box::new(b))),
             2 => inner.clone().prop_map(|n| Node::Boxed(Box::new(n))),
@@ -651,9 +671,8 @@ fn c09_node(with_filtered: bool) -> BoxedStrategy<Node> {
             2 => inner.clone().prop_map(|n| Node::Vec(vec![n])),
             2 => inner.clone().prop_map(|n| Node::Identity(Box::new(n))),
             2 => inner.clone().prop_map(|n| if n.has_filtered() { n } else { Node::Reload(Box::new(n)) }),
-            1 => inner.clone().prop_map(|n| Node::Layered(Box::new(n), Box::new(Node::Opt(None)))),
-            1 => inner.clone().prop_map(|n| Node::Layered(Box::new(Node::Vec(vec![])), Box::new(n))),
-            1 => inner.prop_map(|n| Node::Layered(Box::new(Node::Opt(None)), Box::new(n))),
+            2 => (inner.clone(), absent.clone()).prop_map(|(n, a)| Node::Layered(Box::new(n), Box::new(a))),
+            2 => (inner, absent).prop_map(|(n, a)| Node::Layered(Box::new(a), Box::new(n))),
         ]
     })
     .prop_filter("1..=5 leaves", |n| (1..=5).contains(&n.leaves()))
